@@ -58,7 +58,18 @@ def parse_stderr(text):
                 cur["line"] = int(lm.group(2))
     if cur:
         blocks.append(cur)
+    gutter = re.compile(r'^\s*(\d+) \|')
     for b in blocks:
+        # a postcondition stated on a trait method is reported at the trait; the failing body is the one labelled
+        # "at the end of the function body" / "at this exit"
+        last = None
+        b["body_line"] = None
+        for l in b["text"]:
+            g = gutter.match(l)
+            if g:
+                last = int(g.group(1))
+            if ('at the end of the function body' in l or 'at this exit' in l) and last is not None and b["body_line"] is None:
+                b["body_line"] = last
         b["text"] = "\n".join(b["text"]).rstrip()
     return blocks
 
@@ -114,7 +125,7 @@ def run(path, modules, rlimit=None, threads=16, seed=None, timeout=1500, extra=N
         if b["msg"].startswith("aborting due to"):
             continue
         rl = "resource limit" in b["msg"].lower() or "rlimit" in b["msg"].lower()
-        r.errors.append({"msg": b["msg"], "line": b["line"], "text": b["text"],
+        r.errors.append({"msg": b["msg"], "line": b.get("body_line") or b["line"], "text": b["text"],
                          "semantic": is_semantic(b["msg"]) and not rl, "rlimit": rl, "code": b["code"]})
     if any(e["code"] for e in r.errors) and not r.functions:
         r.ok = False
